@@ -5,7 +5,7 @@ Import ListNotations.
 Open Scope list_scope.
 
 Definition R : list (Table.q * conf) :=
-  explore real_tables term_id Table.q Table.q_eqb Table.fstep Table.alphabet (2 * 4000) [(T0, (flags0, [0%N]))] [].
+  explore real_tables term_id Table.q Table.q_eqb Table.fstep Table.alphabet (5 * 4000) [(T0, (flags0, [0%N]))] [].
 
 (* one evaluation by the kernel's VM at Qed time (the cast is checked by the kernel) *)
 Lemma R_ok : closed real_tables term_id real_pname Table.q Table.q_eqb Table.fstep Table.ffinish Table.alphabet R
